@@ -135,8 +135,62 @@ func (m *Model) Facts() *RepoFacts {
 			}
 		}
 	}
-	if !found {
-		f.Problems = append(f.Problems, "evaluator.functions table not found")
+	if !found || len(f.Builtins) == 0 {
+		// not one nested literal (e.g. assembled from per-type tables): take what the package initialiser builds
+		f.Builtins, f.BuiltinOf = nil, map[*ssa.Function][]BuiltinEntry{}
+		var probs []string
+		for _, p := range f.Problems {
+			if !strings.HasPrefix(p, "functions:") && !strings.HasPrefix(p, "evaluator.functions") {
+				probs = append(probs, p)
+			}
+		}
+		f.Problems = probs
+		okEval := false
+		if outer, isM := m.evalGlobals("evaluator")["functions"].(*iMap); isM && outer.vals != nil && m.globalMapWritten("evaluator", "functions") == "" {
+			okEval = true
+			for ks, iv := range outer.vals {
+				kc := outer.kval[ks]
+				inner, isInner := iv.(*iMap)
+				if kc == nil || kc.Kind() != constant.String || !isInner || inner.vals == nil {
+					okEval = false
+					break
+				}
+				kind := constant.StringVal(kc)
+				for nks, bv := range inner.vals {
+					nkc := inner.kval[nks]
+					st, isSt := bv.(*iStruct)
+					if nkc == nil || nkc.Kind() != constant.String || !isSt {
+						okEval = false
+						break
+					}
+					var fn *ssa.Function
+					stt := st.typ.Underlying().(*types.Struct)
+					for i := 0; i < stt.NumFields(); i++ {
+						if stt.Field(i).Name() == "Fn" {
+							if cl, isCl := st.fields[i].(*iClosure); isCl {
+								fn = cl.fn
+							}
+						}
+					}
+					if fn == nil {
+						okEval = false
+						break
+					}
+					be := BuiltinEntry{Kind: kind, Name: constant.StringVal(nkc), Fn: fn, Pos: fn.Pos()}
+					f.Builtins = append(f.Builtins, be)
+					f.BuiltinOf[fn] = append(f.BuiltinOf[fn], be)
+				}
+			}
+			sort.Slice(f.Builtins, func(i, j int) bool {
+				if f.Builtins[i].Kind != f.Builtins[j].Kind {
+					return f.Builtins[i].Kind < f.Builtins[j].Kind
+				}
+				return f.Builtins[i].Name < f.Builtins[j].Name
+			})
+		}
+		if !okEval || len(f.Builtins) == 0 {
+			f.Problems = append(f.Problems, "evaluator.functions table not found (neither a nested literal nor computable from the package initialiser)")
+		}
 	}
 	return f
 }
